@@ -70,6 +70,13 @@ Store(w, n, val) ==
   LET a == Lo31(w)  i == Find(a, n)  o == a - allocs[i].base
   IN [allocs EXCEPT ![i].bytes = [k \in 1..Len(@) |-> IF k > o /\ k <= o + n THEN val[k - o] ELSE @[k]]]
 
+NextBaseOf(al) ==      \* base address of the next stack allocation: above everything allocated so far, gap-separated, 16-aligned
+  Align16(IF Len(al) = 0 THEN StackBase
+          ELSE LET l == al[Len(al)] IN IF l.base + l.size + Gap < StackBase THEN StackBase ELSE l.base + l.size + Gap)
+ReadBytes(w, n) == LET a == Lo31(w)  i == Find(a, n)  o == a - allocs[i].base IN SubSeq(allocs[i].bytes, o + 1, o + n)
+IsAgg(c) == c \notin {"w", "l", "s", "d", ""}
+TypeSize(c) == LET T == Prog.types IN T[CHOOSE i \in 1..Len(T) : T[i].name = c].size
+
 (* ---- current instruction ---- *)
 F == Funcs[fn]
 B == F.blocks[blk]
@@ -191,9 +198,7 @@ IAlloc ==
   /\ IF ~ArgsDefined THEN Stop("undef-temp")
      ELSE LET sz == Val(I.args[1]) IN
        IF ~FitsNat31(sz) \/ Lo31(sz) > 65536 THEN Stop("alloc-too-big")
-       ELSE LET top  == IF Len(allocs) = 0 THEN StackBase
-                        ELSE LET l == allocs[Len(allocs)] IN IF l.base + l.size + Gap < StackBase THEN StackBase ELSE l.base + l.size + Gap
-                base == Align16(top)
+       ELSE LET base == NextBaseOf(allocs)
             IN /\ allocs' = Append(allocs, [base |-> base, size |-> Lo31(sz), live |-> TRUE, frame |-> Len(frames) + 1,
                                             bytes |-> [k \in 1..Lo31(sz) |-> 0]])
                /\ SetTmp(I.res, "l", W(base))
@@ -211,6 +216,17 @@ CalleeIdx ==     \* index of the called function, 0 if not a function of this mo
   ELSE IF Defined(I.callee) /\ FitsNat31(Val(I.callee)) /\ Lo31(Val(I.callee)) % 16 = 0
           /\ Lo31(Val(I.callee)) \div 16 \in 1..Len(Funcs) THEN Lo31(Val(I.callee)) \div 16 ELSE 0
 
+RECURSIVE CopyArgs(_, _, _, _)
+CopyArgs(k, al, vals, ok) ==
+  IF k > Len(I.cargs) \/ ~ok THEN [al |-> al, vals |-> vals, ok |-> ok]
+  ELSE LET c == I.cargs[k] IN
+       IF ~IsAgg(c.cls) THEN CopyArgs(k + 1, al, Append(vals, Val(c.val)), ok)
+       ELSE LET sz == TypeSize(c.cls)  src == Val(c.val) IN
+            IF ~AddrOK(src, sz) THEN [al |-> al, vals |-> vals, ok |-> FALSE]
+            ELSE LET base == NextBaseOf(al) IN
+                 CopyArgs(k + 1, Append(al, [base |-> base, size |-> sz, live |-> TRUE, frame |-> Len(frames) + 2, bytes |-> ReadBytes(src, sz)]),
+                          Append(vals, W(base)), ok)
+
 ICall ==
   /\ InInst /\ I.op = "call" /\ ~(I.callee.t = "glob" /\ I.callee.n = "obs")
   /\ IF \E k \in 1..Len(I.cargs) : ~Defined(I.cargs[k].val) THEN Stop("undef-temp")
@@ -218,12 +234,15 @@ ICall ==
      ELSE LET g == Funcs[CalleeIdx] IN
        IF g.variadic THEN Stop("unsupported-float-or-vararg")
        ELSE IF Len(g.params) # Len(I.cargs) \/ Len(frames) >= 40 THEN Stop(IF Len(frames) >= 40 THEN "stack-depth" ELSE "call-arity")
-       ELSE IF \E k \in 1..Len(I.cargs) : I.cargs[k].cls \notin {"w", "l"} THEN Stop("unsupported-aggregate-arg")
-       ELSE /\ frames' = Append(frames, [fn |-> fn, blk |-> blk, ip |-> ip, prev |-> prev, tmp |-> tmp, res |-> I.res, cls |-> I.cls])
-            /\ tmp' = [n \in {g.params[k].name : k \in 1..Len(g.params)} |->
-                         LET k == CHOOSE k \in 1..Len(g.params) : g.params[k].name = n IN Norm(g.params[k].cls, Val(I.cargs[k].val))]
-            /\ fn' = CalleeIdx /\ blk' = 1 /\ ip' = 0 /\ prev' = ""
-            /\ Tick /\ UNCHANGED <<pid, allocs, qout, qstatus, qret>>
+       ELSE IF \E k \in 1..Len(I.cargs) : I.cargs[k].cls \in {"s", "d"} THEN Stop("unsupported-float-or-vararg")
+       ELSE LET ca == CopyArgs(1, allocs, <<>>, TRUE) IN     \* an aggregate argument is passed as a pointer to a copy owned by the callee
+            IF ~ca.ok THEN Stop("memfault")
+            ELSE /\ frames' = Append(frames, [fn |-> fn, blk |-> blk, ip |-> ip, prev |-> prev, tmp |-> tmp, res |-> I.res, cls |-> I.cls])
+                 /\ tmp' = [n \in {g.params[k].name : k \in 1..Len(g.params)} |->
+                              LET k == CHOOSE k \in 1..Len(g.params) : g.params[k].name = n IN Norm(g.params[k].cls, ca.vals[k])]
+                 /\ allocs' = ca.al
+                 /\ fn' = CalleeIdx /\ blk' = 1 /\ ip' = 0 /\ prev' = ""
+                 /\ Tick /\ UNCHANGED <<pid, qout, qstatus, qret>>
 
 IFloat == InInst /\ I.op \in FloatOps /\ Stop("unsupported-float-or-vararg")
 
@@ -258,11 +277,22 @@ IRet ==
        THEN /\ qstatus' = "exit" /\ qret' = Norm(IF F.ret = "" THEN "w" ELSE F.ret, rv)
             /\ allocs' = dead /\ UNCHANGED <<pid, fn, blk, ip, prev, tmp, frames, qout, fuel>>
        ELSE LET fr == frames[Len(frames)] IN
-            /\ fn' = fr.fn /\ blk' = fr.blk /\ ip' = fr.ip + 1 /\ prev' = fr.prev
-            /\ tmp' = IF fr.res = "" THEN fr.tmp ELSE (fr.res :> Norm(fr.cls, rv)) @@ fr.tmp
-            /\ frames' = SubSeq(frames, 1, Len(frames) - 1)
-            /\ allocs' = dead
-            /\ Tick /\ UNCHANGED <<pid, qout, qstatus, qret>>
+            IF fr.res # "" /\ IsAgg(fr.cls)
+            THEN \* aggregate result: the caller receives a pointer to a copy it owns
+                 LET sz == TypeSize(fr.cls) IN
+                 IF Len(J[1].arg) = 0 THEN Stop("undef-temp")          \* the value of a bare ret is unspecified: using it is an error
+                 ELSE IF ~AddrOK(rv, sz) THEN Stop("memfault")
+                 ELSE LET base == NextBaseOf(allocs) IN
+                      /\ fn' = fr.fn /\ blk' = fr.blk /\ ip' = fr.ip + 1 /\ prev' = fr.prev
+                      /\ tmp' = (fr.res :> W(base)) @@ fr.tmp
+                      /\ frames' = SubSeq(frames, 1, Len(frames) - 1)
+                      /\ allocs' = Append(dead, [base |-> base, size |-> sz, live |-> TRUE, frame |-> Len(frames), bytes |-> ReadBytes(rv, sz)])
+                      /\ Tick /\ UNCHANGED <<pid, qout, qstatus, qret>>
+            ELSE /\ fn' = fr.fn /\ blk' = fr.blk /\ ip' = fr.ip + 1 /\ prev' = fr.prev
+                 /\ tmp' = IF fr.res = "" THEN fr.tmp ELSE (fr.res :> Norm(fr.cls, rv)) @@ fr.tmp
+                 /\ frames' = SubSeq(frames, 1, Len(frames) - 1)
+                 /\ allocs' = dead
+                 /\ Tick /\ UNCHANGED <<pid, qout, qstatus, qret>>
 
 OutOfFuel == Running /\ fuel = 0 /\ Stop("out-of-fuel")
 
